@@ -397,13 +397,34 @@ def fallback_guards(chk, F, fn, fk):
                 return fields_of(hb, depth + 1)
         return None
 
-    matches = [m for m in hir_walk(h["body"]) if m.get("k") == "Match" and m.get("src") == "Normal" and m["scrut"].get("k") == "Tup"
+    # the table may have been taken out into a function of the same file that `attempt` calls (one generic function for the named
+    # zone and the fixed offset instead of two copies): its HIR is read too, and a field of the value it is a method of is the
+    # expression the struct literal in `attempt` gives that field
+    bodies = [h["body"]]
+    for n in hir_walk(h["body"]):
+        if n.get("k") in ("MethodCall", "Call"):
+            gid = n.get("id") or ((n.get("f") or {}).get("r") or {}).get("id")
+            g = F.hir[CORE].get(gid) if gid else None
+            if g is not None and g["loc"]["file"] == h["loc"]["file"] and g["body"] not in bodies:
+                bodies.append(g["body"])
+    structs = [n for b in bodies for n in hir_walk(b) if n.get("k") == "Struct"]
+    _fields_of0 = fields_of
+
+    def fields_of(e, depth=0):      # noqa: F811
+        r = _fields_of0(e, depth)
+        if r is None and e.get("k") == "Field" and (e.get("e") or {}).get("k") == "Path":
+            for st in structs:
+                for f in st["fields"]:
+                    if f["name"] == e["name"] and str(e.get("of_ty", "?")).split("<")[0] == str(st.get("ty", "")).split("<")[0]:
+                        return _fields_of0(f["e"], depth + 1)
+        return r
+    matches = [m for b in bodies for m in hir_walk(b) if m.get("k") == "Match" and m.get("src") == "Normal" and m["scrut"].get("k") == "Tup"
                and len(m["scrut"].get("es", m["scrut"].get("elems", []))) == 2]
     if not matches:
-        matches = [m for m in hir_walk(h["body"]) if m.get("k") == "Match" and m.get("src") == "Normal" and
+        matches = [m for b in bodies for m in hir_walk(b) if m.get("k") == "Match" and m.get("src") == "Normal" and
                    any(H.pat_str(a["pat"]).replace(" ", "").startswith("(Result::Ok(") for a in m["arms"])]
-    if len(matches) != 2:
-        raise AnchorLost("attempt: expected the two `match (time, date)` tables, found %d" % len(matches))
+    if len(matches) not in (1, 2) or (len(matches) == 1 and len(bodies) < 2):
+        raise AnchorLost("attempt: expected the two `match (time, date)` tables (or one in a function both zone branches call), found %d" % len(matches))
     for mi, m in enumerate(matches):
         for a in m["arms"]:
             ptxt = H.pat_str(a["pat"]).replace(" ", "")
